@@ -173,8 +173,10 @@ def snapshot(ts, arrays):
     out = {"E": np.asarray(arrays.fields.E), "H": np.asarray(arrays.fields.H)}
     for name in ("inv_permittivities", "inv_permeabilities", "electric_conductivity", "magnetic_conductivity"):
         v = getattr(arrays, name, None)          # the returned container must keep the material / conductivity arrays
-        if v is not None and hasattr(v, "shape"):
-            out["mat:" + name] = np.asarray(v)
+        if v is not None and (hasattr(v, "shape") or isinstance(v, (int, float))):
+            # a scalar inv_permeabilities is a Python float before the first jitted step and a 0-d array after it:
+            # both are the same output (false alarm of C07 thorough seed 41: halt at step 0 vs the un-stepped state)
+            out["mat:" + name] = np.asarray(v, dtype=float) if isinstance(v, (int, float)) else np.asarray(v)
     for k, v in sorted(arrays.detector_states.items()):
         for k2, v2 in sorted(v.items()):
             out[f"det:{k}:{k2}"] = np.asarray(v2)
